@@ -114,7 +114,10 @@ def run(eng: Engine, ck: Check):
     aim = eng.func(SHARES, 'SharesManager._add_item_to_term_map')
     ok = any(call_name(x) == 'lower' for x in calls_in(aim.node)) and 'item.subdir' in unparse(aim.node) and 'item.filename' in unparse(aim.node)
     ck.ob('R-C07-SPLIT', aim, aim.node, 'index terms are lower-cased and cover sub-directory and file name', ok, '', construct='index terms lowered')
-    ok = any(isinstance(n, ast.If) and 'not term' in unparse(n.test) and isinstance(n.body[0], ast.Continue) for n in walk_local(aim.node))
+    idx_writes = [n for n in walk_local(aim.node) if (isinstance(n, ast.Call) and call_name(n) in ('add', 'setdefault') and mentions_attr(n.func, '_term_map')) or
+                  (isinstance(n, ast.Assign) and any(isinstance(t_, ast.Subscript) and mentions_attr(t_.value, '_term_map') for t_ in n.targets))]
+    ck.floor('R-C07-SPLIT.index_writes', len(idx_writes), 1)
+    ok = all(elements_nonempty(eng, aim, n) for n in idx_writes)
     ck.ob('R-C07-SPLIT', aim, aim.node, 'empty terms are not indexed', ok, '', construct='index skips empty')
     sq = eng.func(QMODEL, 'SearchQuery.parse')
     ck.visited(sq)
@@ -128,10 +131,9 @@ def run(eng: Engine, ck: Check):
         'wildcard_terms': f'{TERM}.lower()[1:]', 'exclude_terms': f'{TERM}.lower()[1:]', 'include_terms': f'{TERM}.lower()'}, f'{adds}', construct='query terms lowered')
     rows = {}
     for x in calls_on(sq.node, 'add'):
-        rows[unparse(x.func.value).split('.')[-1]] = [(unparse(e), pol) for e, pol, _ in eng.guards_at(sq, x) if 'startswith' in unparse(e)]
-    ok = rows.get('wildcard_terms') == [(f"{TERM}.startswith('*')", True)] and \
-        rows.get('exclude_terms') == [(f"{TERM}.startswith('*')", False), (f"{TERM}.startswith('-')", True)] and \
-        rows.get('include_terms') == [(f"{TERM}.startswith('*')", False), (f"{TERM}.startswith('-')", False)]
+        rows[unparse(x.func.value).split('.')[-1]] = {(prefix_test(e)[1], pol) for e, pol, _ in expanded_guards(eng, sq, x) if prefix_test(e) and prefix_test(e)[0] == TERM}
+    ok = rows.get('wildcard_terms') == {('*', True)} and rows.get('exclude_terms') == {('*', False), ('-', True)} and \
+        rows.get('include_terms') == {('*', False), ('-', False)}
     ck.ob('R-C07-SPLIT', sq, sq.node, 'a term is wildcard iff it starts with *, exclude iff it starts with -, include otherwise', ok, f'{rows}', construct='term classification')
     ctp = eng.func(SUTILS, 'create_term_pattern')
     ck.visited(ctp)
@@ -383,9 +385,38 @@ def run(eng: Engine, ck: Check):
     # ---- R-C07-SCAN
     sf = eng.func(SHARES, 'SharesManager.scan_directory_files')
     ck.visited(sf)
-    ok = any(call_name(x) == 'partial' and unparse(x.args[0]) == 'scan_directory' and unparse(x.args[1]) == sf.params[1] and
-             unparse(kw(x, 'children')) == f'self._get_child_directories({sf.params[1]})' for x in calls_in(sf.node))
-    ck.ob('R-C07-SCAN', sf, sf.node, 'a scan skips the sub-trees of nested shared directories (children = _get_child_directories(dir))', ok, '', construct='scan excludes children')
+    def related_comp(root: ast.AST, xp: str, rel_method: str) -> bool:
+        """[d for d in self._shared_directories if d != X and d.<rel_method>(X)] somewhere in `root`"""
+        for c_ in ast.walk(root):
+            if isinstance(c_, (ast.ListComp, ast.GeneratorExp, ast.SetComp)) and len(c_.generators) == 1 and unparse(c_.generators[0].iter) == 'self._shared_directories' \
+                    and isinstance(c_.generators[0].target, ast.Name) and unparse(c_.elt) == c_.generators[0].target.id:
+                v_ = c_.generators[0].target.id
+                atoms = [a_ for i_ in c_.generators[0].ifs for a_, pol_ in split_conj(i_, True) if pol_ is not None]
+                pols = {unparse(a_): pol_ for i_ in c_.generators[0].ifs for a_, pol_ in split_conj(i_, True)}
+                has_rel = any(pat.match(a_, pat.compile_pattern(f'{v_}.{rel_method}({xp})')[0]) is not None and pols[unparse(a_)] for a_ in atoms)
+                not_self = any((pat.match(a_, pat.compile_pattern(f'{v_} == {xp}')[0]) is not None and not pols[unparse(a_)]) or
+                               (pat.match(a_, pat.compile_pattern(f'{v_} != {xp}')[0]) is not None and pols[unparse(a_)]) or
+                               (pat.match(a_, pat.compile_pattern(f'{v_} is {xp}')[0]) is not None and not pols[unparse(a_)]) for a_ in atoms)
+                if has_rel and not_self and len(atoms) == 2:
+                    return True
+        return False
+
+    def others_related(fn: FuncInfo, rel_method: str) -> bool:
+        return related_comp(fn.node, [p_ for p_ in fn.params if p_ != 'self'][0], rel_method)
+    # children = the other shared directories below the scanned one: computed in place or by a helper of the manager given the directory
+    shm = eng.cls('SharesManager', SHARES)
+    parts = [x for x in calls_in(sf.node) if call_name(x) == 'partial' and x.args and unparse(x.args[0]) == 'scan_directory']
+    ok = len(parts) == 1 and len(parts[0].args) >= 2 and unparse(parts[0].args[1]) == sf.params[1] and kw(parts[0], 'children') is not None
+    if ok:
+        cv_ = expand_aliases(sf, kw(parts[0], 'children'))
+        if isinstance(cv_, ast.Call) and isinstance(cv_.func, ast.Attribute) and unparse(cv_.func.value) == 'self' and cv_.func.attr in shm.methods:
+            gcd = shm.methods[cv_.func.attr]
+            ck.visited(gcd)
+            ok = len(cv_.args) == 1 and unparse(cv_.args[0]) == sf.params[1] and others_related(gcd, 'is_child_of')
+        else:
+            ok = isinstance(cv_, (ast.ListComp, ast.GeneratorExp, ast.SetComp)) and related_comp(cv_, sf.params[1], 'is_child_of')
+    ck.ob('R-C07-SCAN', sf, sf.node, 'a scan skips the sub-trees of nested shared directories (children = the other shared directories below the scanned one)', ok, '',
+          construct='scan excludes children')
     augs = [(unparse(n.target), type(n.op).__name__, unparse(n.value)) for n in walk_local(sf.node) if isinstance(n, ast.AugAssign)]
     d = sf.params[1]
     # the local that receives the scan result (await loop.run_in_executor(.., partial(scan_directory, ..)))
@@ -420,25 +451,6 @@ def run(eng: Engine, ck: Check):
     bad_ = [k_ for k_, v_ in facts.items() if not v_]
     ck.ob('R-C07-SCAN', sd, sd.node, 'scan_directory skips directories under a child share and builds items that belong to the scanned directory', not bad_,
           f'not established: {bad_}', construct='scan_directory')
-    gcd = eng.func(SHARES, 'SharesManager._get_child_directories')
-    def others_related(fn: FuncInfo, rel_method: str) -> bool:
-        """[d for d in self._shared_directories if d != X and d.<rel_method>(X)] with X the parameter"""
-        xp = [p_ for p_ in fn.params if p_ != 'self'][0]
-        for c_ in walk_local(fn.node):
-            if isinstance(c_, (ast.ListComp, ast.GeneratorExp, ast.SetComp)) and len(c_.generators) == 1 and unparse(c_.generators[0].iter) == 'self._shared_directories' \
-                    and isinstance(c_.generators[0].target, ast.Name) and unparse(c_.elt) == c_.generators[0].target.id:
-                v_ = c_.generators[0].target.id
-                atoms = [a_ for i_ in c_.generators[0].ifs for a_, pol_ in split_conj(i_, True) if pol_ is not None]
-                pols = {unparse(a_): pol_ for i_ in c_.generators[0].ifs for a_, pol_ in split_conj(i_, True)}
-                has_rel = any(pat.match(a_, pat.compile_pattern(f'{v_}.{rel_method}({xp})')[0]) is not None and pols[unparse(a_)] for a_ in atoms)
-                not_self = any((pat.match(a_, pat.compile_pattern(f'{v_} == {xp}')[0]) is not None and not pols[unparse(a_)]) or
-                               (pat.match(a_, pat.compile_pattern(f'{v_} != {xp}')[0]) is not None and pols[unparse(a_)]) or
-                               (pat.match(a_, pat.compile_pattern(f'{v_} is {xp}')[0]) is not None and not pols[unparse(a_)]) for a_ in atoms)
-                if has_rel and not_self and len(atoms) == 2:
-                    return True
-        return False
-    ok = others_related(gcd, 'is_child_of')
-    ck.ob('R-C07-SCAN', gcd, gcd.node, 'child directories = other shared directories below this one', ok, '', construct='child directories')
     # every consumer of _get_parent_directories takes the INNERMOST parent, consistently with the sort order of that function
     gpd0 = eng.func(SHARES, 'SharesManager._get_parent_directories')
     srt = [x for x in calls_in(gpd0.node) if call_name(x) in ('sorted', 'sort')]
